@@ -443,50 +443,97 @@ func (c *Ctx) scopeAndRef(rule string) {
 	if fn := c.fn(rule, "schema.RefSchema.ApplyNamespace"); fn != nil {
 		k := key(rule, "schema.RefSchema.ApplyNamespace", "link only on namespace match, to the object with the reference's ID")
 		n := 0
-		for _, b := range fn.Blocks {
-			for _, in := range b.Instrs {
-				st, ok := in.(*ssa.Store)
-				if !ok {
-					continue
-				}
-				fa, ok := st.Addr.(*ssa.FieldAddr)
-				if !ok || c.M.ValPath(fa.X) != fn.Params[0].Name() {
-					continue
-				}
-				n++
-				matched := false
-				for _, cond := range core.CondsAt(b) {
-					if bin, isBin := cond.V.(*ssa.BinOp); isBin && (bin.Op.String() == "==" || bin.Op.String() == "!=") {
-						isEq := (bin.Op.String() == "==") == cond.True
-						px, py := c.M.ValPath(bin.X), c.M.ValPath(bin.Y)
-						own := fn.Params[0].Name() + ".ObjectNamespace"
-						nsParam := fn.Params[2].Name()
-						if isEq && ((px == nsParam && py == own) || (py == nsParam && px == own)) {
-							matched = true
+		// the function and the unexported workers it hands over to (an entry/worker pair): a worker's parameter stands
+		// for what every call site passes
+		group := []*ssa.Function{fn}
+		for gi := 0; gi < len(group) && gi < 4; gi++ {
+			for _, gb := range group[gi].Blocks {
+				for _, in := range gb.Instrs {
+					call, ok := in.(*ssa.Call)
+					if !ok {
+						continue
+					}
+					w := core.StaticBody(&call.Call)
+					if w == nil || len(core.PlainSites(w)) == 0 || w.Signature.Recv() == nil || len(w.Params) == 0 ||
+						!types.Identical(w.Params[0].Type(), fn.Params[0].Type()) {
+						continue
+					}
+					inGroup := false
+					for _, g := range group {
+						if g == w {
+							inGroup = true
 						}
 					}
-				}
-				// value: objects[r.IDValue]
-				fromTable := false
-				v := st.Val
-				if mi, ok := v.(*ssa.MakeInterface); ok {
-					v = mi.X
-				}
-				if e, ok := v.(*ssa.Extract); ok {
-					if lk, ok := e.Tuple.(*ssa.Lookup); ok && lk.X == ssa.Value(fn.Params[1]) && c.M.ValPath(lk.Index) == fn.Params[0].Name()+".IDValue" {
-						fromTable = true
+					if !inGroup {
+						group = append(group, w)
 					}
 				}
-				if lk, ok := v.(*ssa.Lookup); ok && lk.X == ssa.Value(fn.Params[1]) && c.M.ValPath(lk.Index) == fn.Params[0].Name()+".IDValue" {
-					fromTable = true
+			}
+		}
+		standsFor := func(v ssa.Value, p *ssa.Parameter) bool {
+			for _, src := range core.ParamSources(v) {
+				if src != ssa.Value(p) {
+					return false
 				}
-				switch {
-				case !matched:
-					c.R.Bad(rule, k, c.M.InstrPos(st), "reference linked regardless of the namespace", "applying one namespace re-points references that belong to another")
-				case !fromTable:
-					c.R.Bad(rule, k, c.M.InstrPos(st), "reference linked to something else than objects[its ID]", "")
-				default:
-					c.R.Ok(rule, k, c.M.InstrPos(st), "link of a reference", "stored only under namespace == own namespace, value = objects[own ID]")
+			}
+			return true
+		}
+		for _, g := range group {
+			for _, b := range g.Blocks {
+				for _, in := range b.Instrs {
+					st, ok := in.(*ssa.Store)
+					if !ok {
+						continue
+					}
+					fa, ok := st.Addr.(*ssa.FieldAddr)
+					if !ok || c.M.ValPath(fa.X) != g.Params[0].Name() {
+						continue
+					}
+					n++
+					matched := false
+					for _, cond := range core.CondsAt(b) {
+						if bin, isBin := cond.V.(*ssa.BinOp); isBin && (bin.Op.String() == "==" || bin.Op.String() == "!=") {
+							isEq := (bin.Op.String() == "==") == cond.True
+							px, py := c.M.CondPath(g, cond, bin.X), c.M.CondPath(g, cond, bin.Y)
+							own := g.Params[0].Name() + ".ObjectNamespace"
+							isNS := func(path string) bool {
+								for _, q := range g.Params {
+									if q.Name() == path && standsFor(q, fn.Params[2]) {
+										return true
+									}
+								}
+								return false
+							}
+							if isEq && ((isNS(px) && py == own) || (isNS(py) && px == own)) {
+								matched = true
+							}
+						}
+					}
+					// value: objects[r.IDValue]
+					fromTable := false
+					v := st.Val
+					if mi, ok := v.(*ssa.MakeInterface); ok {
+						v = mi.X
+					}
+					isLookup := func(lk *ssa.Lookup) bool {
+						return standsFor(lk.X, fn.Params[1]) && c.M.ValPath(lk.Index) == g.Params[0].Name()+".IDValue"
+					}
+					if e, ok := v.(*ssa.Extract); ok {
+						if lk, ok := e.Tuple.(*ssa.Lookup); ok && isLookup(lk) {
+							fromTable = true
+						}
+					}
+					if lk, ok := v.(*ssa.Lookup); ok && isLookup(lk) {
+						fromTable = true
+					}
+					switch {
+					case !matched:
+						c.R.Bad(rule, k, c.M.InstrPos(st), "reference linked regardless of the namespace", "applying one namespace re-points references that belong to another")
+					case !fromTable:
+						c.R.Bad(rule, k, c.M.InstrPos(st), "reference linked to something else than objects[its ID]", "")
+					default:
+						c.R.Ok(rule, k, c.M.InstrPos(st), "link of a reference", "stored only under namespace == own namespace, value = objects[own ID]")
+					}
 				}
 			}
 		}
@@ -503,7 +550,7 @@ func (c *Ctx) scopeAndRef(rule string) {
 			if core.IsNilConst(e) {
 				n++
 				linked := false
-				for _, cond := range core.CondsAt(r.Block()) {
+				for _, cond := range r.Conds() {
 					if x, neq, isNil := core.NilCmp(cond.V); isNil && neq == cond.True && strings.HasPrefix(c.M.ValPath(x), fn.Params[0].Name()+".") {
 						linked = true
 					}
@@ -524,13 +571,7 @@ func (c *Ctx) scopeAndRef(rule string) {
 }
 
 func edgeCond(from, to *ssa.BasicBlock) []core.Cond {
-	if len(from.Instrs) == 0 {
-		return nil
-	}
-	if ifi, ok := from.Instrs[len(from.Instrs)-1].(*ssa.If); ok && from.Succs[0] != from.Succs[1] {
-		return []core.Cond{{V: ifi.Cond, True: from.Succs[0] == to}}
-	}
-	return nil
+	return core.EdgeConds(from, to)
 }
 
 // scopeTrails: field trails from type t to every field whose type is the Scope interface or *ScopeSchema.
@@ -592,30 +633,89 @@ func (c *Ctx) loadersLink(rule string) {
 		// ApplySelf calls reachable from the loader, with the trails of their receivers
 		got := map[string]bool{}
 		unresolved := 0
-		for f := range c.M.Reachable([]*ssa.Function{fn}, func(g *ssa.Function) bool {
-			return g != fn && !strings.HasPrefix(c.M.Key(g), "schema."+spec.typ+".")
-		}) {
+		// the loader, the methods of the loaded type, and the unexported workers the loader hands over to (with the
+		// functions it passes them: `worker(scope, data, (*ScopeSchema).ApplySelf)` calls ApplySelf where the worker calls
+		// its parameter)
+		type binding map[*ssa.Parameter]*ssa.Function
+		visited := map[*ssa.Function]bool{}
+		var visit func(f *ssa.Function, bound binding, depth int)
+		funcValue := func(v ssa.Value) *ssa.Function {
+			for i := 0; i < 3; i++ {
+				switch x := v.(type) {
+				case *ssa.Function:
+					return c.M.Source(x)
+				case *ssa.ChangeType:
+					v = x.X
+				case *ssa.MakeClosure:
+					if cf, ok := x.Fn.(*ssa.Function); ok {
+						return c.M.Source(cf)
+					}
+					return nil
+				default:
+					return nil
+				}
+			}
+			return nil
+		}
+		visit = func(f *ssa.Function, bound binding, depth int) {
+			if depth > 4 || (visited[f] && len(bound) == 0) {
+				return
+			}
+			visited[f] = true
 			for _, b := range f.Blocks {
 				for _, in := range b.Instrs {
 					call, ok := in.(*ssa.Call)
-					if !ok || c.calledMethodName(call) != "ApplySelf" {
+					if !ok {
 						continue
 					}
+					name := c.calledMethodName(call)
 					recv := call.Call.Value
 					if !call.Call.IsInvoke() && len(call.Call.Args) > 0 {
 						recv = call.Call.Args[0]
 					}
-					ts, ok := c.trails(recv)
-					if !ok {
-						unresolved++
+					var target *ssa.Function
+					if p, isParam := call.Call.Value.(*ssa.Parameter); isParam && bound[p] != nil && !call.Call.IsInvoke() {
+						// a call of a function the loader passed in: the method expression takes the receiver first
+						target = bound[p]
+						name = target.Name()
+					} else if !call.Call.IsInvoke() {
+						target = core.StaticBody(&call.Call)
+					}
+					if name == "ApplySelf" {
+						ts, ok := c.trails(recv)
+						if !ok {
+							unresolved++
+							continue
+						}
+						for _, t := range ts {
+							got[t] = true
+						}
 						continue
 					}
-					for _, t := range ts {
-						got[t] = true
+					if target == nil || target == f {
+						continue
+					}
+					switch {
+					case strings.HasPrefix(c.M.Key(target), "schema."+spec.typ+"."):
+						visit(target, nil, depth+1)
+					case len(core.PlainSites(target)) > 0:
+						inner := binding{}
+						for i, a := range call.Call.Args {
+							if i >= len(target.Params) {
+								break
+							}
+							if fv := funcValue(a); fv != nil {
+								inner[target.Params[i]] = fv
+							} else if p, isParam := a.(*ssa.Parameter); isParam && bound[p] != nil {
+								inner[target.Params[i]] = bound[p]
+							}
+						}
+						visit(target, inner, depth+1)
 					}
 				}
 			}
 		}
+		visit(fn, nil, 0)
 		for _, w := range want {
 			desc := w
 			if desc == "" {
